@@ -66,6 +66,16 @@ def _lock_decorators(ck, module):
                 if held:
                     break
             if held is None:
+                # no with-block: the lock may be taken by hand (`me.<lock>.acquire()` ... `finally: me.<lock>.release()`)
+                for x in w.calls("acquire"):
+                    r = A.call_recv(x)
+                    if isinstance(r, ast.Name):
+                        r = safe_expand(w, r)
+                    if isinstance(r, ast.Attribute) and isinstance(r.value, ast.Name) and r.value.id == me:
+                        lr = LockRegions(ck, wfi, r.attr, me=me)
+                        if lr.held(c) and not lr.leaks():
+                            held = r.attr
+            if held is None:
                 ok = False
             else:
                 locks.add(held)
@@ -109,10 +119,171 @@ def _mutex_holding_context_managers(ck, module):
     return out
 
 
+class LockRegions:
+    """Where, inside one method, the cache lock is held -- decided on the CFG (all statements may raise), not on the
+    spelling of the critical section.  The lock is held at a CFG node when the node sits inside `with self.<lock>:` (or
+    inside a with-block of a lock-holding context-manager method of the class), or when on EVERY path from the entry the
+    last lock event before the node is a successful `self.<lock>.acquire()` (no arguments: blocking) that no
+    `self.<lock>.release()` has undone.  `acquire(); try: ... finally: release()`, a with-block and the lock-holding
+    decorator are thereby the same thing to the rules."""
+
+    def __init__(self, ck, m, lock, lock_cms=(), me="self"):
+        self.m, self.lock, self.lock_cms, self.me = m, lock, set(lock_cms), me
+        self.fa = fa = FA(ck, m, exc_mode="all")
+        cfg = fa.cfg
+        self.withs = [w for w in fa.stmts((ast.With,)) if lock and any(self.is_lock_item(i.context_expr) for i in w.items)]
+        self.acquires, self.releases = [], []
+        for n in cfg.nodes:
+            if n.ast is None or n.kind not in ("stmt", "test", "for", "with"):
+                continue
+            for c in self._own_calls(n):
+                if lock and isinstance(c.func, ast.Attribute) and self._is_lock(c.func.value):
+                    if c.func.attr == "release":
+                        self.releases.append(n.id)
+                    elif c.func.attr == "acquire" and n.kind == "stmt" and isinstance(n.ast, ast.Expr) and n.ast.value is c and not c.args \
+                            and all(k.arg == "blocking" and isinstance(k.value, ast.Constant) and k.value.value is True for k in c.keywords):
+                        self.acquires.append(n.id)
+        self._lex = {}
+        self.held_in = self._solve()
+
+    def _is_lock(self, e) -> bool:
+        if isinstance(e, ast.Name):
+            e = safe_expand(self.fa, e)  # `lk = self._lock` ... `lk.acquire()`
+        return isinstance(e, ast.Attribute) and e.attr == self.lock and isinstance(e.value, ast.Name) and e.value.id == self.me
+
+    def _own_calls(self, n):
+        if n.kind == "for":
+            roots = [n.ast.iter]
+        elif n.kind == "with":
+            roots = [i.context_expr for i in n.ast.items]
+        else:
+            roots = [n.ast]
+        return [c for r in roots for c in A.calls_in(r)]
+
+    def is_lock_item(self, e) -> bool:
+        if self._is_lock(e):
+            return True
+        return isinstance(e, ast.Call) and isinstance(e.func, ast.Attribute) and isinstance(e.func.value, ast.Name) and e.func.value.id == self.me \
+            and e.func.attr in self.lock_cms and not e.args and not e.keywords
+
+    def lexical_with(self, astnode):
+        """the outermost lock with-block whose BODY contains `astnode` (None when there is none)"""
+        k = id(astnode)
+        if k not in self._lex:
+            found = None
+            child, w = astnode, self.fa.pm.get(astnode)
+            while w is not None:
+                if isinstance(w, ast.With) and w in self.withs and child in w.body:
+                    found = w
+                child, w = w, self.fa.pm.get(w)
+            self._lex[k] = found
+        return self._lex[k]
+
+    def _solve(self):
+        cfg = self.fa.cfg
+        acq, rel = set(self.acquires), set(self.releases)
+        lex = {n.id: (self.lexical_with(n.ast) if n.ast is not None else None) for n in cfg.nodes}
+        held = {n.id: True for n in cfg.nodes}
+        held[cfg.entry] = False
+
+        def out(p, d, label):
+            wp = lex[p]
+            if wp is not None and lex[d] is not wp:
+                # leaving a with-block of the lock: back to what held before the block was entered
+                return all(held[i] for i in cfg.nodes_of(wp)) if cfg.nodes_of(wp) else False
+            if wp is not None:
+                return True
+            if p in rel:
+                return False
+            if p in acq:
+                return True if label != "exc" else held[p]
+            pn = cfg.node(p)
+            if pn.kind == "with" and pn.ast in self.withs and label != "exc":
+                return True
+            return held[p]
+
+        live = cfg.reachable_nodes()
+        changed = True
+        while changed:
+            changed = False
+            for n in cfg.nodes:
+                if n.id == cfg.entry or n.id not in live or not held[n.id]:
+                    continue
+                if lex[n.id] is not None:
+                    continue
+                if not all(out(p, n.id, l) for (p, l) in cfg.pred[n.id] if p in live):
+                    held[n.id] = False
+                    changed = True
+        return held
+
+    def held(self, astnode) -> bool:
+        """Is the lock held whenever `astnode` (an expression or statement of the method) is evaluated?"""
+        if self.lexical_with(astnode) is not None:
+            return True
+        ids = self.fa.nodes(astnode)
+        return bool(ids) and all(self.held_in[i] or self.lexical_with(self.fa.cfg.node(i).ast) is not None for i in ids)
+
+    def sections(self):
+        """The critical sections of the method: [(anchor ast node, [ast roots evaluated while it holds the lock])], one per
+        point at which the lock goes from not held to held (a with-block entered / an acquire executed without the lock)."""
+        cfg = self.fa.cfg
+        out = []
+        for w in self.withs:
+            ids = self.fa.nodes(w)
+            if self.lexical_with(w) is None and ids and not all(self.held_in[i] for i in ids):
+                out.append((w, list(w.body)))
+        for a in self.acquires:
+            if a not in cfg.reachable_nodes() or self.held_in[a] or self.lexical_with(cfg.node(a).ast) is not None:
+                continue
+            starts = [d for (d, l) in cfg.succ[a] if l != "exc"]
+            inside = cfg.reach(starts, removed=set(self.releases))
+            roots = []
+            for i in sorted(inside):
+                n = cfg.node(i)
+                if n.ast is None or n.kind not in ("stmt", "test", "for", "with"):
+                    continue
+                if n.kind == "for":
+                    roots.append(n.ast.iter)
+                elif n.kind == "with":
+                    roots += [it.context_expr for it in n.ast.items]
+                else:
+                    roots.append(n.ast)
+            out.append((cfg.node(a).ast, roots))
+        return out
+
+    def leaks(self):
+        """acquire statements after which some path leaves the method (normally or by an exception) without a release"""
+        cfg = self.fa.cfg
+        bad = []
+        for a in self.acquires:
+            if a not in cfg.reachable_nodes():
+                continue
+            starts = [d for (d, l) in cfg.succ[a] if l != "exc"]
+            r = cfg.reach(starts, removed=set(self.releases))
+            if cfg.exit in r or cfg.raise_exit in r:
+                bad.append(cfg.node(a).ast)
+        return bad
+
+
+def _lock_holding_cm_methods(ck, cm, lock):
+    """@contextmanager methods of the cache class that yield only while holding the cache lock."""
+    out = set()
+    for name, m in cm.cls.methods.items():
+        if not any("contextmanager" in d for d in m.decorators) or len(m.params) != 1:
+            continue
+        ys = [n for n in A.walk_body(m.node) if isinstance(n, (ast.Yield, ast.YieldFrom))]
+        if not ys:
+            continue
+        lr = LockRegions(ck, m, lock)
+        if all(lr.held(y) for y in ys) and not lr.leaks():
+            out.add(name)
+    return out
+
+
 def check_cache_guarded(ck, cm: CacheModel, rule="C09.R3"):
     ck.rule(rule, "cache guarded-by: every read or write of the mutable MemoryCache slots happens while the cache lock "
-                  "is held (with-block or lock-holding decorator on a public method; private helpers only called from "
-                  "guarded code); the lock is created in __init__ and is re-entrant", 8)
+                  "is held (with-block, acquire ... finally release, or lock-holding decorator on a public method; private "
+                  "helpers only called from guarded code); the lock is created in __init__ and is re-entrant", 8)
     mod = ck.repo.module("storage_base")
     decos = _lock_decorators(ck, mod)
     lock_fields = [f for (f, kind) in cm.locks]
@@ -122,45 +293,30 @@ def check_cache_guarded(ck, cm: CacheModel, rule="C09.R3"):
           "MemoryCache has no (re-entrant) lock field: its dict / deque / counter are updated by concurrent callers without mutual exclusion",
           A.loc(cm.init, cm.init.node))
     lock = rlock[0] if rlock else (lock_fields[0] if lock_fields else None)
+    lock_cms = _lock_holding_cm_methods(ck, cm, lock) if lock else set()
     # classify methods
     guarded_whole = set()
     for name, m in cm.cls.methods.items():
         for d in m.decorators:
             if d in decos and decos[d] == lock:
                 guarded_whole.add(name)
-    # per-method: accesses to mutable slots and whether they sit inside `with self.<lock>`
+    # per-method: accesses to mutable slots and calls of sibling methods, and whether the lock is held there
     unguarded_access = {}
     calls_to = {}
+    regions_of = {}
     for name, m in cm.cls.methods.items():
         if name == "__init__":
             continue
-        fa = FA(ck, m)
-        acc = []
-        for n in A.walk_body(m.node):
-            f = self_attr(n)
-            if f in cm.mutable_slots:
-                w = n
-                inside = False
-                while w is not None:
-                    w = fa.pm.get(w)
-                    if isinstance(w, ast.With) and any(self_attr(i.context_expr, lock) for i in w.items if lock):
-                        inside = True
-                        break
-                if not inside:
-                    acc.append(n)
-        unguarded_access[name] = acc
-        cl = []
-        for c in fa.calls():
-            if isinstance(c.func, ast.Attribute) and isinstance(c.func.value, ast.Name) and c.func.value.id == "self" and c.func.attr in cm.cls.methods:
-                w = c
-                inside = False
-                while w is not None:
-                    w = fa.pm.get(w)
-                    if isinstance(w, ast.With) and any(self_attr(i.context_expr, lock) for i in w.items if lock):
-                        inside = True
-                        break
-                cl.append((c.func.attr, inside))
-        calls_to[name] = cl
+        lr = regions_of[name] = LockRegions(ck, m, lock, lock_cms)
+        fa = lr.fa
+        unguarded_access[name] = [n for n in A.walk_body(m.node) if self_attr(n) in cm.mutable_slots and not lr.held(n)]
+        calls_to[name] = [(c.func.attr, lr.held(c)) for c in fa.calls()
+                          if isinstance(c.func, ast.Attribute) and isinstance(c.func.value, ast.Name) and c.func.value.id == "self" and c.func.attr in cm.cls.methods]
+        # a lock taken by hand is given back on every way out (an exception included): otherwise every other thread blocks for good
+        for a in lr.leaks():
+            ck.ob(rule, fa.key(a, "lock-released"), False,
+                  "%s acquires the cache lock and can leave (return or exception) without releasing it: every other thread that uses the cache "
+                  "then blocks forever" % name, fa.where(a))
     # fixpoint: a private method is "called only under the lock" if every call site is guarded
     safe = set(guarded_whole)
     changed = True
@@ -174,38 +330,38 @@ def check_cache_guarded(ck, cm: CacheModel, rule="C09.R3"):
                 safe.add(name)
                 changed = True
     # one critical section per mutating operation: a method that writes cache state inside
-    # explicit `with self.<lock>` blocks must do all its state accesses in ONE such block
+    # critical sections of its own must do all its state accesses in ONE such section
     # (decisions taken in an earlier section are stale when the next one starts)
     for name, m in sorted(cm.cls.methods.items()):
         if name == "__init__" or name in guarded_whole:
             continue
-        fa = FA(ck, m)
-        regions = [w for w in fa.stmts((ast.With,)) if lock and any(self_attr(i.context_expr, lock) for i in w.items)]
+        lr = regions_of[name]
+        fa = lr.fa
+        regions = lr.sections()
         # calls (outside any lock region) to helpers that take the lock themselves are critical
         # sections of their own
-        def in_region(n):
-            return any(fa.inside(n, w) for w in regions)
         helper_sections = [c for c in fa.calls() if isinstance(c.func, ast.Attribute) and isinstance(c.func.value, ast.Name) and c.func.value.id == "self"
-                           and c.func.attr in guarded_whole and not in_region(c)
+                           and c.func.attr in guarded_whole and not lr.held(c)
                            and c.func.attr in (cm.evict.name, cm.insert.name, cm.mark_used_name, "_put_ref", "forget_call", "forget_function", "forget_everything")]
         if len(regions) + len(helper_sections) < 2:
             continue
-        def writes_in(w):
+        def writes_in(roots):
             out = []
-            for n in A.walk_local(w):
-                if isinstance(n, (ast.Assign, ast.AugAssign, ast.Delete)):
-                    ts = n.targets if isinstance(n, (ast.Assign, ast.Delete)) else [n.target]
-                    for t in ts:
-                        b = t.value if isinstance(t, ast.Subscript) else t
-                        if self_attr(b) in cm.mutable_slots:
+            for w in roots:
+                for n in A.walk_local(w):
+                    if isinstance(n, (ast.Assign, ast.AugAssign, ast.Delete)):
+                        ts = n.targets if isinstance(n, (ast.Assign, ast.Delete)) else [n.target]
+                        for t in ts:
+                            b = t.value if isinstance(t, ast.Subscript) else t
+                            if self_attr(b) in cm.mutable_slots:
+                                out.append(n)
+                    if isinstance(n, ast.Call) and isinstance(n.func, ast.Attribute):
+                        if self_attr(n.func.value) in cm.mutable_slots and n.func.attr in ("append", "remove", "popleft", "pop", "clear", "appendleft"):
                             out.append(n)
-                if isinstance(n, ast.Call) and isinstance(n.func, ast.Attribute):
-                    if self_attr(n.func.value) in cm.mutable_slots and n.func.attr in ("append", "remove", "popleft", "pop", "clear", "appendleft"):
-                        out.append(n)
-                    if isinstance(n.func.value, ast.Name) and n.func.value.id == "self" and n.func.attr in (cm.evict.name, cm.insert.name, cm.mark_used_name, "_put_ref"):
-                        out.append(n)
+                        if isinstance(n.func.value, ast.Name) and n.func.value.id == "self" and n.func.attr in (cm.evict.name, cm.insert.name, cm.mark_used_name, "_put_ref"):
+                            out.append(n)
             return out
-        wr = [w for w in regions if writes_in(w)] + helper_sections
+        wr = [anchor for (anchor, roots) in regions if writes_in(roots)] + helper_sections
         ok1 = len(wr) <= 1
         ck.ob(rule, m.qual + "::one-critical-section", ok1,
               "state is updated in a single critical section" if ok1 else
